@@ -15,7 +15,7 @@ from pyxform.errors import PyXFormError  # noqa: E402
 
 OUTSIDE = "forms with more than one translated question + one choice list; more than 3 languages; texts containing ${references} (C03/C06)"
 ASSUMPTIONS = [
-    "cell texts are tracers: one shared symbolic character (U+0021-U+007E minus '$') + a digit identifying the cell",
+    "cell texts are tracers: one shared symbolic letter [a-z] + a digit identifying the cell (adversarial characters are C06's subject; letters keep the pattern space tractable)",
     "language names are concrete dict keys ('L1','L2'): dict keys are hashed, their spelling is exercised at the process_header unit (C08.a)",
     "S1-S4 shims inside CrossHair; witnesses re-run without them",
 ]
@@ -219,7 +219,7 @@ def closure_ok(root, D) -> bool:
 def c07_question(dsel: int, rev: bool, f0: bool, f1: bool, f2: bool, f3: bool, f4: bool, f5: bool, f6: bool, f7: bool, f8: bool, f9: bool, f10: bool, c0: int) -> bool:
     """
     vpre: f0 or f1 or f2
-    vpre: 33 <= c0 <= 126 and c0 != 36
+    vpre: 97 <= c0 <= 122
     vpost: _ == True
     """
     flags = (f0, f1, f2, f3, f4, f5, f6, f7, f8, f9, f10)
@@ -231,7 +231,7 @@ def c07_question(dsel: int, rev: bool, f0: bool, f1: bool, f2: bool, f3: bool, f
 def c08_question(dsel: int, rev: bool, f0: bool, f1: bool, f2: bool, f3: bool, f4: bool, f5: bool, f6: bool, f7: bool, f8: bool, f9: bool, f10: bool, c0: int) -> bool:
     """
     vpre: f0 or f1 or f2
-    vpre: 33 <= c0 <= 126 and c0 != 36
+    vpre: 97 <= c0 <= 122
     vpost: _ == True
     """
     flags = (f0, f1, f2, f3, f4, f5, f6, f7, f8, f9, f10)
@@ -320,7 +320,7 @@ register("C07", c07_question, "a.question")
 def c07_calc(dsel: int, rev: bool, f_cm: bool, f_cm1: bool, f_rm1: bool, f_lab1: bool, c0: int) -> bool:
     """
     vpre: 0 <= dsel <= 2
-    vpre: 33 <= c0 <= 126 and c0 != 36
+    vpre: 97 <= c0 <= 122
     vpost: _ == True
     """
     D = DLANGS[dsel]
@@ -361,7 +361,7 @@ specialise(
 
 def c07_msgrefs(which: int, other_translated: bool, in_repeat: bool, c0: int) -> bool:
     """
-    vpre: 33 <= c0 <= 126 and c0 != 36
+    vpre: 97 <= c0 <= 122
     vpost: _ == True
     """
     col = ["constraint_message", "required_message", "no_app_error_string", "hint", "guidance_hint"][which]
@@ -400,7 +400,7 @@ def c07_choices(usage: int, la0: bool, la1: bool, lb0: bool, lb1: bool, ima: boo
     """
     vpre: la0 or la1 or ima
     vpre: lb0 or lb1
-    vpre: 33 <= c0 <= 126 and c0 != 36
+    vpre: 97 <= c0 <= 122
     vpost: _ == True
     """
     a = {"list_name": "l1", "name": "a"}
@@ -442,7 +442,7 @@ specialise(
 def c07_choices_unlabeled(usage: int, la0: bool, la1: bool, lb0: bool, lb1: bool, ima: bool, c0: int) -> bool:
     """
     vpre: la0 or la1 or lb0 or lb1
-    vpre: 33 <= c0 <= 126 and c0 != 36
+    vpre: 97 <= c0 <= 122
     vpost: _ == True
     """
     a = {"list_name": "l1", "name": "a"}
